@@ -397,7 +397,15 @@ func (R *Renderer) render(v ssa.Value) string {
 			if e == v {
 				continue
 			}
-			parts = append(parts, R.V(e))
+			pv := R.V(e)
+			// a merge of merges is one merge: phi{0 | phi{0 | x}} = phi{0 | x}
+			if strings.HasPrefix(pv, "phi{") && strings.HasSuffix(pv, "}") {
+				if inner := splitTopLevel(pv[4:len(pv)-1], " | "); len(inner) > 0 {
+					parts = append(parts, inner...)
+					continue
+				}
+			}
+			parts = append(parts, pv)
 		}
 		sort.Strings(parts)
 		parts = dedup(parts)
@@ -1488,4 +1496,30 @@ func devirtualise(cc *ssa.CallCommon) (*ssa.Function, ssa.Value) {
 		return nil, nil
 	}
 	return m, mi.X
+}
+
+// splitTopLevel splits s at sep outside any bracket nesting; nil when brackets do not balance.
+func splitTopLevel(s, sep string) []string {
+	var out []string
+	depth, start := 0, 0
+	for i := 0; i < len(s); i++ {
+		switch s[i] {
+		case '{', '(', '[':
+			depth++
+		case '}', ')', ']':
+			depth--
+			if depth < 0 {
+				return nil
+			}
+		}
+		if depth == 0 && strings.HasPrefix(s[i:], sep) {
+			out = append(out, s[start:i])
+			start = i + len(sep)
+			i += len(sep) - 1
+		}
+	}
+	if depth != 0 {
+		return nil
+	}
+	return append(out, s[start:])
 }
